@@ -13,6 +13,7 @@ import Driver.Socks
 import Driver.Bpf
 import Driver.Limiter
 import Driver.E2E
+import Driver.E2EApp
 import Driver.HttpProbe
 import Driver.Engine
 import Driver.Pipe
@@ -68,6 +69,8 @@ def dispatch (line : String) : String :=
   | "e2esigint" :: rest => (Driver.E2E.handleE2ESigint rest).getD "BAD-CASE\t0"
   | "e2ejson" :: rest => (handleE2EJson rest).getD "BAD-CASE\t0"
   | "e2edelay" :: rest => (Driver.E2E.handleE2EDelay rest).getD "BAD-CASE\t0"
+  | "apprec" :: rest => (Driver.E2EApp.handleAppRec rest).getD "BAD-CASE\t0"
+  | "apptime" :: rest => (Driver.E2EApp.handleAppTime rest).getD "BAD-CASE\t0"
   | "limrt" :: rest => (handleLimRT rest).getD "BAD-CASE\t0"
   | "engine" :: rest => (handleEngine rest).getD "BAD-CASE\t0"
   | "exitdelay" :: rest => (handleExitDelay rest).getD "BAD-CASE\t0"
